@@ -11,9 +11,9 @@ TRAP = {
 }
 
 
-def marks():
+def marks(src=None):
     m = {}
-    for i, line in enumerate(open(SRC), 1):
+    for i, line in enumerate(open(src or SRC), 1):
         mm = re.search(r"// MARK:(\w+)", line)
         if mm:
             m[mm.group(1)] = i
@@ -44,14 +44,17 @@ def make(where, prints, trap, depth):
     return s + [trap, depth]
 
 
-def expected(script):
+LEAF = {1: "f_div", 2: "f_assert", 3: "f_index", 4: "f_overflow", 5: "f_shift"}
+
+
+def expected(script, src=None):
     where, prints, trap, depth = parse(script)
     out = b""
     for kind, n in prints:
         out += text(n, kind >= 2)
         if kind % 2 == 1:
             out += b"\n"
-    mk = marks()
+    mk = marks(src)
     exp = {"stdout": out, "rc": 0, "stderr_first": None, "frames": None}
     if trap == 0:
         exp["stdout"] = out + b"done\n"
@@ -67,9 +70,28 @@ def expected(script):
     elif trap in (6, 11):
         # innermost frames are inside the standard library (Array::fill); then the known chain
         exp["frames_after_std"] = [("fail", mk[str(trap)])] + chain
+    elif trap in LEAF:
+        exp["frames"] = [(LEAF[trap], mk[str(trap)]), ("fail", mk["F%d" % trap])] + chain
     else:
         exp["frames"] = [("fail", mk[str(trap)])] + chain
     return exp
+
+
+def make_variant(dst, pads):
+    """Write a layout variant of the driver: the i-th '// PAD' line becomes pads[i] statements
+    that cannot trap (xor), which shifts code sizes and alignments of the leaf functions."""
+    out = []
+    k = 0
+    for line in open(SRC):
+        if line.strip() == "// PAD":
+            n = pads[k % len(pads)]
+            k += 1
+            for j in range(n):
+                out.append("    pad = pad ^ %d;\n" % (j + 3))
+        else:
+            out.append(line)
+    with open(dst, "w") as f:
+        f.writelines(out)
 
 
 def parse_frames(stderr_text):
